@@ -161,4 +161,28 @@ theorem parse_I_step_ws (h : IterG g I Z R b t0 rest nI nZ nR) (s : List Char) (
 
 end
 
+/-! ### discharging `ht0` / `ht0Z`: skipping whitespace is idempotent, and an element with `callPreparse` skips itself -/
+
+theorem takeWhile_drop_takeWhile {α : Type} (p : α → Bool) : ∀ l : List α,
+    (l.drop (l.takeWhile p).length).takeWhile p = [] := by
+  intro l
+  induction l with
+  | nil => rfl
+  | cons x xs ih =>
+    by_cases hx : p x = true
+    · simp only [List.takeWhile_cons, hx, if_true, List.length_cons, List.drop_succ_cons]
+      exact ih
+    · simp [hx]
+
+theorem skipWhite_idem (w s : List Char) (loc : Nat) : skipWhite w s (skipWhite w s loc) = skipWhite w s loc := by
+  unfold skipWhite
+  rw [← List.drop_drop, takeWhile_drop_takeWhile]
+  rfl
+
+theorem parseStep_callPre_shift (g : Grammar) (s : List Char) (p : P) (id : Nat) (nd : Node) (loc pre : Nat) (a : Bool)
+    (hg : g[id]? = some nd) (hc : nd.callPre = true) (hpre : preParse p nd s loc = .at pre) :
+    parseStep g s p id loc a true = parseStep g s p id pre a false := by
+  unfold parseStep
+  simp [hg, hc, hpre]
+
 end PP.Parse
